@@ -928,7 +928,8 @@ class vPeriod(TimeBase):
         # set the timezone identifier
         # does not support different timezones for start and end
         tzid = tzid_from_dt(start)
-        if tzid:
+        if tzid and tzid != 'UTC':
+            # UTC is written with the Z suffix and no TZID (RFC 5545, 3.3.5)
             self.params['TZID'] = tzid
 
         self.start = start
